@@ -156,11 +156,14 @@ def run(prop, tier, judge_prop=None, level="model_checking", extra_cov=None, cas
     wd = C.scratch("verif-%s-" % prop)
     binary = C.build_harness()
 
-    # 1. model checking + case export
-    invs = ALL_INV + ["ExportCase"]
-    r = C.run_tlc("TdxVerify_MC", cfg_text(prop, tier, invs=invs), workers=1 if True else 8, timeout=7200, want_cases=True,
-                  coverage=(tier == "quick"), heap="12g")
+    # 1. model checking (all invariants, coverage, 8 workers) and case export (initial states only, 1 worker) side by side
+    with ThreadPoolExecutor(max_workers=2) as ex:
+        f_mc = ex.submit(C.run_tlc, "TdxVerify_MC", cfg_text(prop, tier, invs=ALL_INV), None, 8, 7200, (), tier == "quick", False, "12g")
+        f_ex = ex.submit(C.run_tlc, "TdxVerify_MC", cfg_text(prop, tier, spec="ExportSpec", invs=["ExportCase"]), None, 1, 7200, (), False, True, "8g")
+        r, rx = f_mc.result(), f_ex.result()
     C.tlc_must_pass(r, "TdxVerify model check for %s" % prop)
+    C.tlc_must_pass(rx, "TdxVerify case export for %s" % prop)
+    r.cases = rx.cases
     if not r.cases:
         raise C.Infra("no cases exported")
     zero = [a for a in r.coverage_zero if a in ("CheckQuote", "ExtractChain", "ExtractCa", "FetchTcbInfo", "FetchQeIdentity", "FetchPckCrl", "FetchRootCrl",
@@ -174,12 +177,14 @@ def run(prop, tier, judge_prop=None, level="model_checking", extra_cov=None, cas
     with open(cases_path, "w") as f:
         for c in cases:
             f.write(json.dumps(c) + "\n")
+    t_mc = time.time() - t0
     C.log("[%s] model: %d states generated, %d distinct, depth %d; %d worlds, %d (world, option) cases" %
           (prop, r.generated, r.distinct, r.depth, len(cases), len(r.cases)))
 
     # 2. real code
     trace = os.path.join(wd, "trace.ndjson")
     summ = C.run_harness(binary, "verify", cases_path, trace, os.path.join(wd, "summary.json"), tier)
+    t_h = time.time() - t0 - t_mc
     C.log("[%s] harness: %d runs of the real code, %d events, verdicts %s" % (prop, summ["runs"], summ["events"], summ["counts"]))
 
     # 3. judge
@@ -214,6 +219,7 @@ def run(prop, tier, judge_prop=None, level="model_checking", extra_cov=None, cas
                                                                     [(e.get("kind") or e.get("verdict")) for e in evs[1:]])
             drift = "strict conformance with the pipeline model diverges in %s%s" % (os.path.basename(chunk), where)
 
+    C.log("[%s] phases: model %.1fs, harness %.1fs, judging %.1fs" % (prop, t_mc, t_h, time.time() - t0 - t_mc - t_h))
     # 4. settle + evidence
     code = 0 if part else C.settle(prop, violations)
     cov = {
